@@ -212,11 +212,18 @@ func TestB2C17NameTrees(t *testing.T) {
 
 func TestB2C17NumberTrees(t *testing.T) {
 	cases := 0
-	for _, n := range []int{0, 1, 64, 65, 129, 4097} {
+	extreme := []pdf.Integer{-9223372036854775808, -9223372036854775807, -9007199254740993, -9007199254740992, -9007199254740991, -1, 0, 1, 9007199254740991, 9007199254740992, 9007199254740993, 9223372036854775806, 9223372036854775807}
+	for _, n := range []int{0, 1, 64, 65, 129, 4097, 4098, 4130, 5000, -1} {
 		cases++
 		data := map[pdf.Integer]pdf.Object{}
 		for i := 0; i < n; i++ {
 			data[pdf.Integer(i*i-1000)] = pdf.Name(fmt.Sprintf("v%d", i))
+		}
+		if n < 0 {
+			// keys beyond the range a float64 represents exactly, and the extremes of int64
+			for i, k := range extreme {
+				data[k] = pdf.Name(fmt.Sprintf("x%d", i))
+			}
 		}
 		desc := fmt.Sprintf("nums n=%d", n)
 		r, root := c17Doc(t, func(w *pdf.Writer) (pdf.Reference, error) { return WriteMap[pdf.Integer, NumCodec](w, data) })
@@ -228,7 +235,8 @@ func TestB2C17NumberTrees(t *testing.T) {
 		}
 		keyOf := func(o pdf.Object) (string, bool) {
 			i, ok := o.(pdf.Integer)
-			return fmt.Sprintf("%020d", int64(i)+1<<40), ok
+			// order-preserving text form of an int64
+			return fmt.Sprintf("%020d", uint64(int64(i))^(1<<63)), ok
 		}
 		if _, err := c17Structure(r, root, "Nums", true, 0, keyOf, func(a, b string) bool { return a < b }); err != nil {
 			t.Errorf("B2-FAIL structure %s: %v", desc, err)
@@ -243,10 +251,40 @@ func TestB2C17NumberTrees(t *testing.T) {
 			if err != nil || !pdf.Equal(got, v) {
 				t.Errorf("B2-FAIL lookup-present %s key=%d: %v %v", desc, k, got, err)
 			}
-			if _, has := data[k+1]; !has {
+			if _, has := data[k+1]; !has && k != 9223372036854775807 {
 				if got, err := str.Lookup(k + 1); err == nil && got != nil {
 					t.Errorf("B2-FAIL lookup-absent %s key=%d", desc, k+1)
 				}
+			}
+		}
+		// the in-memory reader agrees, and both enumerate every key once in ascending order
+		mem, err := ExtractInMemory[pdf.Integer, NumCodec](r, root)
+		if err != nil {
+			t.Errorf("B2-FAIL extract %s: %v", desc, err)
+			continue
+		}
+		for name, all := range map[string]func(func(pdf.Integer, pdf.Object) bool){"streaming": str.All(), "memory": mem.All()} {
+			count, ordered := 0, true
+			var prev pdf.Integer
+			for k, v := range all {
+				if count > 0 && k <= prev {
+					ordered = false
+				}
+				prev = k
+				count++
+				if want, ok := data[k]; !ok || !pdf.Equal(v, want) {
+					t.Errorf("B2-FAIL enumerate-value %s %s key=%d", desc, name, k)
+					break
+				}
+			}
+			if count != len(data) || !ordered {
+				t.Errorf("B2-FAIL enumerate %s %s: %d keys, want %d (ascending, each once: %v)", desc, name, count, len(data), ordered)
+			}
+		}
+		for k, v := range data {
+			if got, err := mem.Lookup(k); err != nil || !pdf.Equal(got, v) {
+				t.Errorf("B2-FAIL lookup-present %s memory key=%d: %v %v", desc, k, got, err)
+				break
 			}
 		}
 	}
